@@ -12,7 +12,7 @@ PROP = {
     ],
 }
 TEXT = {
-    "text": "(a) Lock discipline on ALL control-flow paths: a go/ast translator turns every function of package server into a lock/IO skeleton on every run; a reflective checker with a soundness theorem proved once in Coq (induction over the path semantics, any branch choices, any number of loop iterations, panics after defers, goroutine spawns, interprocedural calls) establishes that no mutex is acquired while one is held, no unlock without lock, guarded fields are accessed only under their mutex, calls match the callee's contract, no blocking I/O under a lock, every function leaves with the lock state it was entered with. (b) Interleavings at critical-section boundaries: every critical section is an operation of the model and the invariant + no-Panic theorem holds for every operation list with ARBITRARY captured arguments (e.g. the impact job's device id captured before the device was banned), so every schedule of sections is covered; report deliveries commute (permutation theorem). Harness: every menu operation injected between the impact job's two sections and compared with the model; devices banned while their datagrams are in flight on the real socket; a many-goroutine mix judged against the order-independent report rule; -race build in the thorough tier. Added after seeded-change rounds: impact-table oracle for every operation injected between the job Round 5: the concurrent workload runs on a server with an archived week, which is queried with and without insert_false_negatives and must be the same record afterwards.'s critical sections, UDP bursts, sync replies checked as snapshots during 30 rotations with 16 clients, announcements (incl. simultaneous ones for one key, ban then re-announcement) against syncing devices with liveness probes, sixteen simultaneous registrations.",
+    "text": "(a) Lock discipline on ALL control-flow paths: a go/ast translator turns every function of package server into a lock/IO skeleton on every run; a reflective checker with a soundness theorem proved once in Coq (induction over the path semantics, any branch choices, any number of loop iterations, panics after defers, goroutine spawns, interprocedural calls) establishes that no mutex is acquired while one is held, no unlock without lock, guarded fields are accessed only under their mutex, calls match the callee's contract, no blocking I/O under a lock, every function leaves with the lock state it was entered with. (b) Interleavings at critical-section boundaries: every critical section is an operation of the model and the invariant + no-Panic theorem holds for every operation list with ARBITRARY captured arguments (e.g. the impact job's device id captured before the device was banned), so every schedule of sections is covered; report deliveries commute (permutation theorem). Harness: every menu operation injected between the impact job's two sections and compared with the model; devices banned while their datagrams are in flight on the real socket; a many-goroutine mix judged against the order-independent report rule; -race build in the thorough tier. Added after seeded-change rounds: impact-table oracle for every operation injected between the job's critical sections, UDP bursts, sync replies checked as snapshots during 30 rotations with 16 clients, announcements (incl. simultaneous ones for one key, ban then re-announcement) against syncing devices with liveness probes, sixteen simultaneous registrations. Round 5: the concurrent workload runs on a server with an archived week, which is queried with and without insert_false_negatives and must be the same record afterwards.",
     "note": "Partial by nature (DESIGN section 9): data-race freedom in the sense of the Go memory model and real scheduler behaviour are not exhibited by a sequentially consistent model; trusted: Coq kernel+vm_compute, skeleton translator, harness, race detector.",
     "technique": "Coq proof by reflection (verified abstract interpreter over regenerated lock skeletons) + invariant over critical-section schedules + differential correspondence + concurrent stress / race detector",
 }
